@@ -14,7 +14,7 @@ def main():
     man = json.load(open(os.path.join(C.ROOT, "MANIFEST.json")))
     spec = importlib.util.spec_from_loader("check", loader=None)
     drivers = {"C09": ["bufread", "daemon"], "C10": ["bufwrite"], "C12": ["ws", "daemon"], "C16": ["matcher"], "C17": ["hoptable"],
-               "C18": ["utf8"], "C19": ["deflate"], "C20": ["authfile"]}
+               "C18": ["utf8"], "C19": ["deflate"], "C20": ["authfile"], "C13": ["http"], "C07": ["daemon", "alloc"]}
     targets = []
     for c in man.get("checks", []):
         pid = c["property_id"]
@@ -26,8 +26,11 @@ def main():
     ok, log = C.lean_build(force=True, targets=targets or None)
     print(log[-3000:])
     print("lean build of claimed properties:", "ok" if ok else "FAILED", targets)
-    ok2, log2 = C.lean_build(force=True)
-    print("lean build of the whole library:", "ok" if ok2 else "incomplete (unclaimed modules)")
+    try:
+        ok2, log2 = C.lean_build(force=True, timeout=1500)
+        print("lean build of the whole library:", "ok" if ok2 else "incomplete (modules of unclaimed properties)")
+    except Exception as ex:   # never let the optional part fail the setup
+        print("lean build of the whole library: skipped (%r)" % (ex,))
     return 0 if ok else 1
 
 
